@@ -39,6 +39,8 @@ def compare(kind, a, b, f):
             va, vb = [p[1] for p in a[0]], [p[1] for p in b[0]]
         else:
             va, vb = a, b
+        if len(va) == len(vb) and any(isinstance(x, float) and x != x and isinstance(y, float) and y != y for x, y in zip(va, vb)):
+            return 'NAN'          # inf - inf on both sides (warm-up of a pastified monitor): an undefined case, discarded by the caller
         if len(va) != len(vb) or any(not same(x, y, False) for x, y in zip(va, vb)):
             return 'modular: %r\ninlined: %r' % (va, vb)
         return None
@@ -97,6 +99,8 @@ def check(case):
     stateful = any(F.n_temporal(s) >= 1 for s in subs)
     if multi:
         labels.append('referenced-twice')
+    if msg == 'NAN':
+        return DISCARD('nan', labels)
     if msg:
         return FAIL('modular-differs:' + kind, describe(case) + '\n' + msg, labels)
     return PASS(bool(subs) and (multi or stateful), labels)
